@@ -22,7 +22,7 @@ FAULTS = {
 }
 
 
-def file_text(i, uses, own_stmts=True):
+def file_text(i, uses, own_stmts=True, extras=()):
     """File i defines class K<i>, function fun<i>; `uses` = indices of files whose definitions it uses."""
     lines = []
     for j in uses:
@@ -38,6 +38,20 @@ def file_text(i, uses, own_stmts=True):
     lines.append("")
     lines.append("def fun%d(x: Int) -> Int => x * %d" % (i, i + 2))
     lines.append("")
+    # what makes the generator add imports of its own to THIS file's output (abc, typing, math): none of it may show up in,
+    # or be missing from, the output of another file
+    for e in extras:
+        if e == "interface":
+            lines += ["type If%d" % i, "    def need%d(self, q: Int) -> Int" % i, "class Im%d: If%d" % (i, i),
+                      "    def need%d(self, q: Int) -> Int => q + %d" % (i, i), ""]
+        elif e == "marker":
+            lines += ["type Mk%d" % i, ""]
+        elif e == "nullable":
+            lines += ["def opt%d: Int? := None" % i, "def tup%d: (Int, Str) := (%d, \"t\")" % (i, i)]
+        elif e == "callable":
+            lines += ["def hof%d(g: (Int) -> Int, u: Int?) -> Int => g(%d)" % (i, i), ""]
+        elif e == "sqrt":
+            lines += ["def root%d := sqrt %d.0" % (i, i + 1)]
     if own_stmts:
         lines.append("def own%d := K%d(%d)" % (i, i, i))
         lines.append("print(own%d.get%d() + fun%d(1))" % (i, i, i))
@@ -67,7 +81,8 @@ def projects(draw):
             k += 1
             rel = (d + "/" if d else "") + stem + str(k) + ".mamba"
         used_paths.add(rel)
-        files.append({"rel": rel, "uses": uses, "text": file_text(i, uses)})
+        extras = [e for e in ("interface", "marker", "nullable", "callable", "sqrt") if draw(st.integers(0, 99)) < 22]
+        files.append({"rel": rel, "uses": uses, "text": file_text(i, uses, True, extras), "extras": extras})
     # files without any definition: zero bytes, only a newline, only a comment (nothing imports them)
     for _ in range(draw(st.sampled_from([0, 0, 1, 1, 2]))):
         d = draw(st.sampled_from(DIRS))
